@@ -12,6 +12,7 @@ import (
 	"github.com/contiv/libOpenflow/simrt"
 	"github.com/contiv/libOpenflow/util"
 	log "github.com/sirupsen/logrus"
+	stdlog "log"
 )
 
 type outcome struct {
@@ -24,6 +25,7 @@ type outcome struct {
 
 func init() {
 	log.SetOutput(io.Discard)
+	stdlog.SetOutput(io.Discard) // some decoders report through the standard logger
 	log.SetLevel(log.PanicLevel)
 	log.StandardLogger().ExitFunc = func(code int) {
 		if s := simrt.Cur(); s != nil {
@@ -305,6 +307,15 @@ func (w *world) finish(res simrt.Result) {
 
 	// completeness
 	eligible := quiescent && !w.consumerStopped && sc.ShutdownAfter == 0 && sc.Consumer.StopAfter == 0 && !sc.Consumer.StopAfterError
+	if totalityProp(sc.Property) {
+		// a parser goroutine that died on a damaged frame takes its frame with it: that is
+		// reported by the totality oracles, not a second time as a lost frame
+		for _, t := range sim.Tasks {
+			if t.Class == "parser" && (t.ExitKind == "panic" || t.ExitKind == "budget") {
+				eligible = false
+			}
+		}
+	}
 	nilParsed := 0
 	if eligible {
 		lost, lostInFlight := 0, 0
